@@ -413,9 +413,28 @@ _ADDED6 = {
 }
 for _k, _v in _ADDED6.items():
     CLAIMS[_k]["text"] = CLAIMS[_k]["text"] + _v
-_PY = (" Every check also runs six lints for slips of the Python data model (qcolint/pylints.py; rules <id>.PY1..PY6) over the files the property's anchors name: "
+_DEPTH = (" The number of layers the cached layer walk visits before its loop guard stops it is computed from the source (constant propagation through the guard's "
+          "constructor, helper defaults and class constants) and is not below the 5000 of the reference tree.")
+_ADDED7 = {
+    "C01": " (R18) copy() of every operation and link class keeps relation type, duration strategy, qubits and channels (shared C05.K1/K2); R13 also reads how the "
+           "de-duplicating helper decides 'seen before' (hash container, not equality alone).",
+    "C07": " (A14) unrolling reaches every repeated block at every depth (shared C06.U1).",
+    "C09": " (P13) no value derived from mutable state is frozen at construction in structure / language classes (shared C03.H7).",
+    "C10": " (T11) copies keep duration strategy and channel (shared C05.K1/K2); (T12) every global duration strategy reads through the getter a temporary configuration "
+           "replaces (shared C01.R10); (T13) the implicit predecessor is searched over the whole graph (shared C01.R5/R6).",
+    "C11": " F2 also decides that flatten() with its optional arguments omitted changes the structure in no other way.",
+    "C12": " (X8) the stored kernel list keeps the construction order of the offset chain.",
+    "C16": " (Q13) the partition helper's canonical form keeps every element of every subgroup.",
+    "C18": " (W8) compact drawing reaches every global duration strategy (shared C01.R10); (W9) the row order handed to the transform constructor is kept as given.",
+    "C19": " (I7) one definition behind the public names QubitChannel / ChannelIdentifier / QubitIDObj / EdgeIDObj; I1 also fixes the positional order (qubit, channel).",
+}
+for _k, _v in _ADDED7.items():
+    CLAIMS[_k]["text"] = CLAIMS[_k]["text"] + _v
+for _k in ("C01", "C02", "C04", "C05", "C06", "C07", "C08", "C09", "C10", "C11", "C13", "C15", "C18"):
+    CLAIMS[_k]["text"] = CLAIMS[_k]["text"] + _DEPTH
+_PY = (" Every check also runs seven lints for slips of the Python data model (qcolint/pylints.py; rules <id>.PY1..PY7) over the files the property's anchors name: "
        "late-binding closures that escape their loop, one-shot iterators consumed twice, containers stored and then changed in place, replicated / default mutables, and truth "
-       "tests of Optional[T] values whose T has falsy members, and float-typed values stored into integer arrays. Each reports only the shape in which the slip is certain; "
+       "tests of Optional[T] values whose T has falsy members, float-typed values stored into integer arrays, and dataclasses that derive a defaulted init field in __post_init__. Each reports only the shape in which the slip is certain; "
        "each lint must fire on a positive example and stay silent on its negative twin on every run (qcolint/pylints_examples.py).")
 for _k in list(CLAIMS):
     CLAIMS[_k]["text"] = CLAIMS[_k]["text"] + _ADDED4.get(_k, "")
